@@ -146,8 +146,15 @@ fn extraction_ok(eg: &XG) -> Result<usize, String> {
     for i in eg.ids() {
         let mut cs: Vec<Slot> = eg.slots(i).into_iter().collect(); cs.sort();
         if cs.is_empty() { continue; }
-        for base in [0u32, 1, 7] {
-            let m: SlotMap = cs.iter().enumerate().map(|(k, s)| (*s, Slot::numeric(base + k as u32))).collect();
+        let mut queries: Vec<SlotMap> = Vec::new();
+        for base in [0u32, 1, 7] { queries.push(cs.iter().enumerate().map(|(k, s)| (*s, Slot::numeric(base + k as u32))).collect()); }
+        // the class's OWN slots, rotated and (first two) swapped: a permutation of them is not the identity
+        if cs.len() >= 2 {
+            queries.push(cs.iter().enumerate().map(|(k, s)| (*s, cs[(k + 1) % cs.len()])).collect());
+            let mut sw = cs.clone(); sw.swap(0, 1);
+            queries.push(cs.iter().zip(sw.iter()).map(|(s, t)| (*s, *t)).collect());
+        }
+        for m in queries {
             let a = AppliedId::new(i, m);
             let t = ast_size_extract(&a, eg);
             k += 1;
